@@ -255,7 +255,7 @@ def run(ctx):
             tp = table_param[f.id][1]
             for c in ast.walk(f.node):
                 if isinstance(c, ast.Call) and isinstance(c.func, ast.Name) and getattr(p.resolve_func(f.mod, c.func), "id", None) in table_param:
-                    if any(f"{tp}[" in norm(resolve_local(f.node, x)) for x in c.args):
+                    if any(f"{tp}[" in norm(resolve_local(f.node, x)) or f"{tp}.get(" in norm(resolve_local(f.node, x)) for x in c.args):
                         from_table = True
         ctx.check("C12.R3", "a definition taken from the name table is itself processed (references inside it are inlined too)", from_table, group[0].where(), f"{names}: definition from the name table returned without recursion", "a chain Parent -> Child -> Grandchild of separately parsed pieces leaves 'Grandchild' undefined in the header")
         # the walk is given the complete name table at every step (a definition taken from it may refer to further ones)
